@@ -83,8 +83,9 @@ func (c *arrayClass_[V]) MakeFromArray(values []V) ArrayLike[V] {
 }
 
 func (c *arrayClass_[V]) MakeFromSequence(values Sequential[V]) ArrayLike[V] {
-	var size = values.GetSize()
+	// The sequence may be in use so its size is taken from the iterator.
 	var iterator = values.GetIterator()
+	var size = iterator.GetSize()
 	var array = make([]V, size)
 	for index := 0; index < size; index++ {
 		var value = iterator.GetNext()
